@@ -308,11 +308,17 @@ func poisonedIDs(m *mon) map[string]bool {
 			if in.Kind != "load" || in.ID != o.ID {
 				continue
 			}
-			le := in.LoadEnd
+			// the load is in flight, from the cache's point of view, from the
+			// moment the loading Get inserted its placeholder until it stored
+			// the value — bracketed by that Get's own call and return events
+			ls, le := in.LoadStart, in.LoadEnd
+			if in.LoaderOp >= 0 && in.LoaderOp < len(m.ops) {
+				ls, le = m.ops[in.LoaderOp].Call, m.ops[in.LoaderOp].Ret
+			}
 			if le == 0 {
 				le = inf
 			}
-			if !(in.LoadStart < ret && le > o.Call) {
+			if !(ls < ret && le > o.Call) {
 				continue
 			}
 			touched := o.Ret == 0 || o.OK || (o.Err != "" && o.Err != "ErrNotExists" && o.Err != "ErrClosed")
